@@ -5,6 +5,7 @@ package bigbuff
 import (
 	"errors"
 	"fmt"
+	"os"
 	"reflect"
 	"runtime"
 	"sort"
@@ -281,36 +282,54 @@ func c14GatedCase(h *hctx, id int) bool {
 		if na > 1 {
 			h.count("simultaneous_action_sets", 1)
 		}
-		if !quiesce(150*time.Microsecond, 3*time.Second) {
-			h.line("MONITOR C14 no quiescence within 3s: case k1-%d-%d (cfg %s)", h.seed, id, ints(cfg))
-			stuck = true
+		opBase := append([]int(nil), op...)
+		var ql int
+		for try := 0; ; try++ {
+			op = append([]int(nil), opBase...)
+			fp, quiet := quiesceFP(150*time.Microsecond, 3*time.Second)
+			if !quiet {
+				h.line("MONITOR C14 no quiescence within 3s: case k1-%d-%d (cfg %s)", h.seed, id, ints(cfg))
+				stuck = true
+				break
+			}
+			// observation
+			cnt := w.Count()
+			ql = c14QueueLen(w)
+			lib := libGoroutineCount() - base
+			mu.Lock()
+			runTags = runTags[:0]
+			for tag, n := range started {
+				if n > 1 {
+					h.line("MONITOR C14 function of call %d executed %d times: case k1-%d-%d", tag, n, h.seed, id)
+				}
+				if n > ended[tag] {
+					runTags = append(runTags, tag)
+				}
+			}
+			sort.Ints(runTags)
+			op = append(op, cnt, ql, lib, len(runTags))
+			op = append(op, runTags...)
+			op = append(op, nthreads)
+			for _, th := range threads {
+				op = append(op, len(th.outs))
+				for _, o := range th.outs {
+					op = append(op, o...)
+				}
+			}
+			mu.Unlock()
+			// the observation counts only if nothing has moved while it was read
+			if fp2, quiet2 := quietFP(); (quiet2 && fp2 == fp) || try >= 50 {
+				break
+			}
+			h.count("observation_retaken", 1)
+			if os.Getenv("VERIF_DEBUG_FP") != "" {
+				fp2, _ := quietFP()
+				fmt.Fprintf(os.Stderr, "RETAKEN case %d step %d\n  before: %s\n  after:  %s\n", id, step, fp, fp2)
+			}
+		}
+		if stuck {
 			break
 		}
-		// observation
-		cnt := w.Count()
-		ql := c14QueueLen(w)
-		lib := libGoroutineCount() - base
-		mu.Lock()
-		runTags = runTags[:0]
-		for tag, n := range started {
-			if n > 1 {
-				h.line("MONITOR C14 function of call %d executed %d times: case k1-%d-%d", tag, n, h.seed, id)
-			}
-			if n > ended[tag] {
-				runTags = append(runTags, tag)
-			}
-		}
-		sort.Ints(runTags)
-		op = append(op, cnt, ql, lib, len(runTags))
-		op = append(op, runTags...)
-		op = append(op, nthreads)
-		for _, th := range threads {
-			op = append(op, len(th.outs))
-			for _, o := range th.outs {
-				op = append(op, o...)
-			}
-		}
-		mu.Unlock()
 		if len(runTags) > maxRun {
 			maxRun = len(runTags)
 		}
